@@ -150,6 +150,8 @@ class _RedisConsumer(ConsumerT):
                     offset - self.PREFETCH_AMOUNT,  # range from the end of the queue
                     offset - 1,
                 )
+                # the oldest message is at the end of the list, so look from there
+                names.reverse()
                 offset -= self.PREFETCH_AMOUNT  # reversed offset
 
         elif not force_delayed:
